@@ -95,33 +95,45 @@ func (t *StandardRoundTimer) background(ctx context.Context) {
 
 	var timerElapsed, cancelTimer chan struct{}
 
+	// A start request that arrived while the previous, already cancelled, timer
+	// had not yet been cleaned up.
+	var pending *startTimerRequest
+
 	for {
-		// Wait for signal to start timer.
-		select {
-		case <-ctx.Done():
-			return
+		var req startTimerRequest
+		if pending != nil {
+			req = *pending
+			pending = nil
+		} else {
+			// Wait for signal to start timer.
+			select {
+			case <-ctx.Done():
+				return
 
-		case req := <-t.startTimerRequests:
-			// We assume the timer is always stopped by the time we receive a valid start timer request.
-			// If the timer is stopped, then we are safe to reset.
-			timer.Reset(req.Dur)
-
-			timerElapsed = make(chan struct{})
-			cancelTimer = make(chan struct{})
-			// Local reference so the returned cancel function
-			// doesn't have a closure over the outer variable.
-			localCancel := cancelTimer
-			var cancelOnce sync.Once
-			// The caller should be blocking on the receive here,
-			// so we should be safe to do a blocking send.
-			req.Resp <- startTimerResponse{
-				Elapsed: timerElapsed,
-				Cancel: func() {
-					cancelOnce.Do(func() {
-						close(localCancel)
-					})
-				},
+			case req = <-t.startTimerRequests:
+				// Okay.
 			}
+		}
+
+		// We assume the timer is always stopped by the time we receive a valid start timer request.
+		// If the timer is stopped, then we are safe to reset.
+		timer.Reset(req.Dur)
+
+		timerElapsed = make(chan struct{})
+		cancelTimer = make(chan struct{})
+		// Local reference so the returned cancel function
+		// doesn't have a closure over the outer variable.
+		localCancel := cancelTimer
+		var cancelOnce sync.Once
+		// The caller should be blocking on the receive here,
+		// so we should be safe to do a blocking send.
+		req.Resp <- startTimerResponse{
+			Elapsed: timerElapsed,
+			Cancel: func() {
+				cancelOnce.Do(func() {
+					close(localCancel)
+				})
+			},
 		}
 
 		// The timer is running.
@@ -152,10 +164,31 @@ func (t *StandardRoundTimer) background(ctx context.Context) {
 			timerElapsed = nil
 			cancelTimer = nil
 
-		case <-t.startTimerRequests:
-			panic(errors.New(
-				"BUG: new timer requested before previous timer elapsed or was cancelled",
-			))
+		case next := <-t.startTimerRequests:
+			// A new request is only valid once the previous timer was cancelled.
+			// The caller may cancel and immediately request the next timer,
+			// in which case both this case and the cancel case are ready
+			// and we happened to observe the request first.
+			select {
+			case <-cancelTimer:
+				// Cancelled: clean up as in the cancel case, then serve the request.
+			default:
+				panic(errors.New(
+					"BUG: new timer requested before previous timer elapsed or was cancelled",
+				))
+			}
+
+			if !timer.Stop() {
+				select {
+				case <-timer.C:
+					// Okay.
+				default:
+					// Already drained.
+				}
+			}
+			timerElapsed = nil
+			cancelTimer = nil
+			pending = &next
 		}
 	}
 }
